@@ -33,7 +33,7 @@ CHECKS = {
         "assembly",
         "exploration",
         "DESIGN.md 5.1",
-        "seeded search over add/remove/pop/extend/assemble/evaluate histories on the real System with real and fake contributions; registry checked against a list+dict model after every operation, index sets recomputed by the model, every System evaluation method compared with a dense reference scatter (step_callback as the sequential application of the contributions' callbacks), system-level data derived during assembly (e_N, e_F, constant force reservoir) compared with the contributions' own, assemble-again compared bit for bit. Sampled histories, not exhaustive.",
+        "seeded search over add/remove/pop/extend/assemble/evaluate histories on the real System with real and fake contributions; registry checked against a list+dict model after every operation, index sets recomputed by the model, every System evaluation method compared with a dense reference scatter (step_callback as the sequential application of the contributions' callbacks), system-level data derived during assembly (e_N, e_F, constant force reservoir) compared with the contributions' own, assemble-again compared bit for bit, arrays returned at one state re-checked after the system was evaluated at another (no shared result storage). Sampled histories, not exhaustive.",
         "trusts the contributions' local methods (only their placement is checked), numpy, and the harness's own connectivity rules for interaction contributions; assembly runs with compute_consistent_initial_conditions=False",
         "deterministic simulation: seeded operation-history machine vs. executable reference model (single-copy list + dense scatter), ddmin-shrunk replay files",
     ),
@@ -41,7 +41,7 @@ CHECKS = {
         "coo",
         "exploration",
         "DESIGN.md 5.2",
-        "seeded search over block-write histories (all index and value kinds, element types float64 / int / float32 / bool / Python lists, C / Fortran / strided / transposed layouts, overlaps, nested and persistent sub-containers, conversions interleaved with writes, malformed writes as injected faults) against a dense accumulator with exact arithmetic; sampled, not exhaustive.",
+        "seeded search over block-write histories (all index and value kinds, element types float64 / int / float32 / bool / Python lists, C / Fortran / strided / transposed layouts, overlaps, nested and persistent sub-containers, conversions interleaved with writes, caller-owned index buffers refilled in place, malformed writes as injected faults after which the container must still convert to the accepted blocks) against a dense accumulator with exact arithmetic; sampled, not exhaustive.",
         "trusts numpy's np.add.at and scipy.sparse conversions used by the container itself; values are dyadic so sums are exact",
         "deterministic simulation: seeded write-history machine vs. dense reference model with malformed-write fault injection, ddmin-shrunk replay files",
     ),
@@ -49,7 +49,7 @@ CHECKS = {
         "revolute",
         "exploration",
         "DESIGN.md 5.11",
-        "seeded search over rotation/query/rate/wiggle/reset histories (up to 300 ops, many full turns both ways, quadrant-boundary landings) on a real Revolute inside a real assembled System against an accumulator model; reset is decided by a freshly built twin. Sampled, not exhaustive.",
+        "seeded search over rotation/query/rate/wiggle/reset histories (up to 300 ops, many full turns both ways, quadrant-boundary landings, arbitrary also decreasing time stamps, rate queries before angle queries, injected queries with non-finite iterates between samples) on a real Revolute inside a real assembled System against an accumulator model; reset is decided by a freshly built twin. Sampled, not exhaustive.",
         "trusts the harness's own quaternion algebra (cardsim/rot.py) and RigidBody.A_IB; increments between queries stay below a quarter turn by construction",
         "deterministic simulation: seeded operation-history machine vs. accumulator reference model and fresh-twin oracle, ddmin-shrunk replay files",
     ),
@@ -57,7 +57,7 @@ CHECKS = {
         "cache",
         "exploration",
         "DESIGN.md 5.12",
-        "seeded search over interleavings of memoised evaluations (argument pools sized so that hits, evictions and re-visits occur) with step callbacks, reference-strain updates and re-assembly, on RigidBody, Sphere2Sphere (incl. a partner moved explicitly in time and two contacts with identical local coordinates), all Cosserat rod formulations and Mesh1D; oracle is an unmemoised twin receiving the same history (exact equality; caches living on a class are emptied before each twin evaluation). Sampled, not exhaustive.",
+        "seeded search over interleavings of memoised evaluations (argument pools sized so that hits, evictions and re-visits occur) with step callbacks, reference-strain updates and re-assembly, fresh argument arrays or caller-owned buffers refilled in place, on RigidBody, Sphere2Sphere (incl. a partner moved explicitly in time and two contacts with identical local coordinates), all Cosserat rod formulations and Mesh1D; oracle is an unmemoised twin receiving the same history (exact equality; caches living on a class are emptied before each twin evaluation). Sampled, not exhaustive.",
         "trusts cachetools (LRUCache(maxsize=0) never stores; the counting subclass used on the memoised side does not change behaviour)",
         "deterministic simulation: seeded interleaving machine under cache pressure vs. unmemoised twin (differential oracle), ddmin-shrunk replay files",
     ),
@@ -65,7 +65,7 @@ CHECKS = {
         "initcond",
         "exploration",
         "DESIGN.md 5.3",
-        "seeded sessions whose initial-condition solve is monitored at the first assemble and at states reached by running RATTLE and re-initialising (resting / sliding / sticking contacts, chains with compliance and actuators), plus injected corrupted-restart faults (velocity, position, penetration, approaching contact) that must be rejected, clean states that must be accepted, and forced / organic failures of the initial-condition contact fixed point with continue_with_unconverged on / off (raise, warn, or consistent values). Chains may carry a user-defined nonholonomic constraint. Sampled, not exhaustive.",
+        "seeded sessions whose initial-condition solve is monitored at the first assemble and at states reached by running RATTLE and re-initialising (resting / sliding / sticking contacts also on planes moved tangentially in time, chains with compliance and actuators, Systems with an earlier assembly of other bodies), plus injected corrupted-restart faults (velocity, position, penetration, approaching contact) that must be rejected, clean states that must be accepted, and forced / organic failures of the initial-condition contact fixed point with continue_with_unconverged on / off (raise, warn, or consistent values). Chains may carry a user-defined nonholonomic constraint. Sampled, not exhaustive.",
         "trusts the System's model functions (M, h, W_*, g*, gamma_F*) used to evaluate the equations of motion; assembly runs with fixed_point_atol=1e-10, monitor tolerance 1e-6*(1+scale)",
         "deterministic simulation: seeded sessions with per-assembly monitors and corrupted-restart fault injection (F3c), ddmin-shrunk replay files",
     ),
@@ -73,7 +73,7 @@ CHECKS = {
         "constraints",
         "exploration",
         "DESIGN.md 5.4",
-        "seeded sessions of all six dynamic solvers on random open / closed chains (parents as first or second joint partner, drives starting from rest, user-defined nonholonomic constraints), on Cosserat rods of every formulation, and on contact scenes that continue after forced fixed-point / Newton failures, with buggified legal solver knobs and step sizes over three decades; the solver-specific constraint / unit-quaternion / equation-of-motion invariant is evaluated at every stored step (Moreau at the recorded midpoint) against a bound reconstructed from the solver's own stopping criterion. Sampled; no adversarial schedule exists for this property, the 'schedule' is the knob / step-size / tolerance draw.",
+        "seeded sessions of all six dynamic solvers on random open / closed chains (parents as first or second joint partner, drives starting from rest, user-defined nonholonomic constraints), on Cosserat rods of every formulation, on chains next to an unrelated closed contact, and on contact scenes that continue after forced fixed-point / Newton failures, with buggified legal solver knobs and step sizes over three decades; the solver-specific constraint / unit-quaternion / equation-of-motion invariant is evaluated at every stored step (Moreau at the recorded midpoint) against a bound reconstructed from the solver's own stopping criterion. Sampled; no adversarial schedule exists for this property, the 'schedule' is the knob / step-size / tolerance draw.",
         "trusts the System's constraint functions; organic solver failures and redundantly constrained scenes are discards (counted); bounds c*(atol+rtol*scale)*sqrt(n), c=50",
         "deterministic simulation: seeded solver runs under a step-boundary seam with per-step invariant monitors and buggified knobs, ddmin-shrunk replay files",
     ),
@@ -89,7 +89,7 @@ CHECKS = {
         "solution",
         "exploration",
         "DESIGN.md 5.7",
-        "seeded runs of all eight solvers over a sweep of (t0, t1, dt) including decimal-exact multiples that are inexact in binary, tiny runs and non-zero initial times, with injected truncation faults (forced Newton failure, SciPy back-end stop); grid start / step / end point, field shapes, iteration and save -> load through a real file (incl. systems with Cosserat rods) are checked on every returned Solution. Sampled, not exhaustive.",
+        "seeded runs of all eight solvers over a sweep of (t0, t1, dt) including decimal-exact multiples that are inexact in binary, tiny runs and non-zero initial times, with injected truncation faults (forced Newton failure, SciPy back-end stop); grid start / step / end point, field shapes, iteration (after other Solutions with other field sets were iterated in the process, records kept beyond the loop, concurrent iterations) and save -> load through a real file (incl. systems with Cosserat rods) are checked on every returned Solution. Sampled, not exhaustive.",
         "Riks' arc-length parameter is exempt from the grid clauses; dill round trip through a private temp directory",
         "deterministic simulation: seeded solver runs with truncation fault injection and a real-file save/load seam, contract checked on every returned Solution, ddmin-shrunk replay files",
     ),
@@ -97,7 +97,7 @@ CHECKS = {
         "nonconv",
         "fault_enumeration",
         "DESIGN.md 5.8",
-        "for each sampled session a fault-free pilot run enumerates, through the guarded decision hook, every loop instance reached (fsolve call j of step k, each fixed-point loop of step k); thorough forces every one of them (quick: a seeded sample of <= 6) to 'never converges' in a fresh run through the real code path, SciPy back ends get a back-end stop; the reaction (raise / warn naming the time and return converged steps only / warn and continue) is judged over the recorded event history; differential runs decide 'does not silently ignore' for contacts and actuators; a third of the contact sessions use a prox parameter beyond the contraction range so that fixed points fail organically. Enumeration is complete per session (up to 80 points), sessions are sampled.",
+        "for each sampled session a fault-free pilot run enumerates, through the guarded decision hook, every loop instance reached (fsolve call j of step k, each fixed-point loop of step k); thorough forces every one of them (quick: a seeded sample of <= 6) to 'never converges' in a fresh run through the real code path, SciPy back ends get a back-end stop; the reaction (raise / warn naming the time and return converged steps only / warn and continue) is judged over the recorded event history; differential runs decide 'does not silently ignore' for contacts and actuators; a third of the contact sessions use a prox parameter beyond the contraction range so that fixed points fail organically; Newton budgets of 1-2 iterations fail organically in both Newton variants of RATTLE and every nonlinear solve is held to the configured budget; fault F1n lets a user force law evaluate to NaN from a time / load level on (a solve reporting success with a non-finite residual is a failed solve passed off as converged). Enumeration is complete per session (up to 80 points), sessions are sampled.",
         "trusts the hook (add-only, reports every decision; forced decisions run the loop out of budget through the real branch); 'names the time' = number equal to the stop time / failed step time (3 digits) or the step index",
         "deterministic simulation: convergence-fault injection at every enumerated injection point of a pilot run (decision hook seam), reaction oracle over the event history, ddmin-shrunk replay files",
     ),
@@ -105,7 +105,7 @@ CHECKS = {
         "restart",
         "fault_enumeration",
         "DESIGN.md 5.10",
-        "crash / restart fault at every split step of a sampled session (thorough; quick: 3 seeded split steps) on chains, revolute-spring systems, contact scenes, Cosserat rods and nonholonomic constraints, arbitrary time origins (splits exactly at t = 0), system copy taken before the run, after the first leg or after the whole uninterrupted run, durable state handed over in memory or through save/load on disk; oracles: second leg equals the uninterrupted run, model identity against a system the harness builds itself from the body-fixed plan at the restart state, re-initialisation must not raise. Sessions are sampled; split points are enumerated per session.",
+        "crash / restart fault at every split step of a sampled session (thorough; quick: 3 seeded split steps) on chains, revolute-spring systems, contact scenes, Cosserat rods and nonholonomic constraints, arbitrary time origins (splits exactly at t = 0), system copy taken before the run, after the first leg or after the whole uninterrupted run (optionally re-initialised twice for the same time, after another rod model was copied in the process), durable state handed over in memory or through save/load on disk; oracles: second leg equals the uninterrupted run, model identity against a system the harness builds itself from the body-fixed plan at the restart state, re-initialisation must not raise. Sessions are sampled; split points are enumerated per session.",
         "trusts the harness-built model (scenes.build with state override) and the harness's own unwrapped revolute angles; velocity-level solvers restart with compute_consistent_initial_conditions=False",
         "deterministic simulation: crash/restart fault injection at enumerated split steps with durable-state seam (memory / file), differential oracle against the uninterrupted run and an independently built model, ddmin-shrunk replay files",
     ),
@@ -129,7 +129,7 @@ CHECKS = {
         "export",
         "exploration",
         "DESIGN.md 5.13",
-        "seeded sessions (multibody runs with arbitrary time origins, meshed bodies, static rod solutions) followed by export operations with random fps, overwrite flag, pre-existing folders, repeated exports, lists, System.export and injected export failures part-way (later exports must be unaffected); the written .pvd / .vtu files are read back with VTK's reader and compared with geometry recomputed by the harness from the solution at each exported frame's time. Sampled, not exhaustive.",
+        "seeded sessions (multibody runs with arbitrary time origins, meshed bodies, static rod solutions) followed by export operations with random fps, overwrite flag, pre-existing folders, repeated exports, lists, System.export, long animations (> 1000 frames), standstill runs (identical coordinates in consecutive frames), solutions with non-unit quaternions, prefix-related and bracketed file names and injected export failures part-way (later exports must be unaffected); the written .pvd / .vtu files are read back with VTK's reader and compared with geometry recomputed by the harness from the solution at each exported frame's time. Sampled, not exhaustive.",
         "trusts VTK's reader and the harness's geometry formulas; rods are re-evaluated through their public r_OP / A_IB; points are Float32 (1e-6), data arrays 1e-9",
         "deterministic simulation: file-seam export / read-back with environment-state faults (pre-existing folders and files) against independently recomputed geometry, ddmin-shrunk replay files",
     ),
